@@ -14,7 +14,7 @@ def conn505Req (h : Head) (fr : Framing) (rest : Bytes) : PReq :=
     stage := .readDone, fixed := print505 }
 
 theorem parseStep_app (s : State) (h : Head) (rest : Bytes) (fr : Framing)
-    (hh : readHead s.rest s.fin = .ok (h, rest)) (hf : framingOf h.headers = .ok fr)
+    (hh : readHead s.rest s.fin = .ok (h, rest)) (hf : framingFor h.version h.headers = .ok fr)
     (hshort : ∀ n, fr.kind = .buffered n → n ≤ rest.length)
     (hver : (⟨Extracted.maxVersion.1, Extracted.maxVersion.2⟩ : Version).lt h.version = false) :
     parseStep s = { addReq s (appReq s h fr rest) (initialBody fr.kind rest).2 with
@@ -30,7 +30,7 @@ theorem parseStep_app (s : State) (h : Head) (rest : Bytes) (fr : Framing)
   | _ => simp only [Bool.false_eq_true, if_false]
 
 theorem parseStep_505 (s : State) (h : Head) (rest : Bytes) (fr : Framing)
-    (hh : readHead s.rest s.fin = .ok (h, rest)) (hf : framingOf h.headers = .ok fr)
+    (hh : readHead s.rest s.fin = .ok (h, rest)) (hf : framingFor h.version h.headers = .ok fr)
     (hshort : ∀ n, fr.kind = .buffered n → n ≤ rest.length)
     (hver : (⟨Extracted.maxVersion.1, Extracted.maxVersion.2⟩ : Version).lt h.version = true) :
     parseStep s = addReq s (conn505Req h fr rest) (initialBody fr.kind rest).2 := by
@@ -44,7 +44,7 @@ theorem parseStep_505 (s : State) (h : Head) (rest : Bytes) (fr : Framing)
   | _ => simp only [Bool.false_eq_true, if_false, if_true]
 
 theorem parseStep_short (s : State) (h : Head) (rest : Bytes) (fr : Framing) (n : Nat)
-    (hh : readHead s.rest s.fin = .ok (h, rest)) (hf : framingOf h.headers = .ok fr)
+    (hh : readHead s.rest s.fin = .ok (h, rest)) (hf : framingFor h.version h.headers = .ok fr)
     (hk : fr.kind = .buffered n) (hs : rest.length < n) :
     parseStep s = { s with parserEnd := some (if s.fin == .open then .waiting else .closed) } := by
   have hd : decide (rest.length < n) = true := by simpa using hs
@@ -112,7 +112,7 @@ theorem par_parse_cases (s : State) (hpe : s.parserEnd = none) :
   | ok p =>
     obtain ⟨h, rest⟩ := p
     have hlen := par_readHead_len s.rest s.fin h rest hh
-    cases hf : framingOf h.headers with
+    cases hf : framingFor h.version h.headers with
     | error e =>
       right
       have hrl := fun fuel idx st => par_runLoop_framing_error fuel idx st s.rest s.fin s.script h rest e hh hf
@@ -160,7 +160,9 @@ theorem par_parse_cases (s : State) (hpe : s.parserEnd = none) :
             by omega, fun _ => by omega, ?_⟩
           · exact parseStep_app s h rest fr hh hf hshort hver
           · intro fuel st
-            rw [runLoop_step fuel s.nextIdx st s.rest s.fin s.script h rest fr hh hf hshort hver]
+            have hf' : framingOf h.headers = .ok fr := by
+              rw [← framingFor_of_not_high _ _ hver]; exact hf
+            rw [runLoop_step fuel s.nextIdx st s.rest s.fin s.script h rest fr hh hf' hshort hver]
             have hs := par_handle_spec st h fr (isLastRequest h.version h.headers) (s.script s.nextIdx)
               (initialBody fr.kind rest).1 (initialBody fr.kind rest).2 s.fin
             have e1 : futEmit s.fin (initialBody fr.kind rest).2 (appReq s h fr rest) =
